@@ -90,7 +90,61 @@ def tasks(tier, seed):
         for mode in ("exposure", "observation"):
             out.append({"fn": "build", "kwargs": {"det": det, "mode": mode}, "label": f"build/{det},{mode}"})
     out.append({"fn": "presence", "kwargs": {}, "label": "build/presence"})
+    for kind in EXPR_KINDS:
+        out.append({"fn": "expressions", "kwargs": {"kind": kind}, "label": f"expressions/{kind}"})
     return out
+
+
+EXPR_KINDS = ("linspace", "arange", "geomspace", "logspace", "arange_int")
+
+
+def _expression(kind, e, n):
+    """(text as written in a configuration file, the numbers it denotes computed independently with numpy)."""
+    import numpy as _np
+
+    a = 10.0 ** e
+    if kind == "linspace":
+        return f"numpy.linspace({a!r}, {2 * a!r}, {n + 2})", [float(v) for v in _np.linspace(a, 2 * a, n + 2)]
+    if kind == "arange":
+        return f"numpy.arange({a!r}, {(n + 1) * a!r}, {a / 3!r})", [float(v) for v in _np.arange(a, (n + 1) * a, a / 3)]
+    if kind == "geomspace":
+        return f"numpy.geomspace({a!r}, {a * 1000!r}, {n + 2})", [float(v) for v in _np.geomspace(a, a * 1000, n + 2)]
+    if kind == "logspace":
+        return f"numpy.logspace({e}, {e + 1}, {n + 2})", [float(v) for v in _np.logspace(e, e + 1, n + 2)]
+    return f"numpy.arange({n}, {n + 4})", [int(v) for v in _np.arange(n, n + 4)]
+
+
+def _expression_case(kind, e, n):
+    from pyxel.evaluator import eval_range
+    from pyxel.exposure import Readout
+    from pyxel.observation import ParameterValues
+
+    text, want = _expression(kind, e, n)
+    bad = {}
+    got = list(eval_range(text))
+    if len(got) != len(want) or any(type(g) is not type(w) or g != w for g, w in zip(got, want)):
+        bad["eval_range"] = {"text": text, "evaluated": got[:6], "denotes": want[:6]}
+    pv = list(ParameterValues(key="detector.characteristics.charge_to_volt_conversion", values=text))
+    if len(pv) != len(want) or any(g != w for g, w in zip(pv, want)):
+        bad["parameter_values"] = {"text": text, "evaluated": [float(x) for x in pv[:6]], "denotes": want[:6]}
+    if want[0] > 0 and all(b > a_ for a_, b in zip(want, want[1:])):
+        try:
+            times = [float(t) for t in Readout(times=text).times]
+        except Exception as ex:  # noqa: BLE001
+            times = f"{type(ex).__name__}: {ex}"
+        if times != [float(w) for w in want]:
+            bad["readout_times"] = {"text": text, "evaluated": times if isinstance(times, str) else times[:6], "denotes": want[:6]}
+    return bad
+
+
+def expressions(kind):
+    """Value-range and readout-time expressions (numpy.* text as written in configuration files) evaluate to exactly the numbers they
+    denote, for magnitudes from 1e-15 to 1e3 (solver-chosen decade and length; the evaluation itself is numpy's, i.e. concrete)."""
+    e, n = vx.integer("decade"), vx.integer("length")
+    vx.assume((e >= -15) & (e <= 3) & (n >= 1) & (n <= 3), "decades 1e-15 .. 1e3, three lengths")
+    ee, nn = vx.concretize_int(e), vx.concretize_int(n)
+    bad = _expression_case(kind, ee, nn)
+    vx.prove(f"C12/expressions/denoted_numbers/{kind}/1e{ee},n={nn}", not bad, detail=str(bad)[:300])
 
 
 def REQUIRED_REACH(tier):
@@ -486,6 +540,9 @@ def replay(oid, kwargs, model, data):
             except (ValueError, TypeError):
                 ok = False
         return ok != (n == "pair"), {"value": list(val), "accepted": ok}
+    if fn == "expressions":
+        bad = _expression_case(kwargs["kind"], int(model.get("decade", 0)), int(model.get("length", 1)))
+        return bool(bad), bad
     if fn == "build":
         import tempfile
 
